@@ -146,10 +146,53 @@ def directory_orders(run, model, rng):
                       dict(kind="S", fn="directory", files=[[f[0], f[1].hex()] for f in files]))
 
 
+def registry_history(run, model, rng):
+    """with a message registry and component-name files for several creators installed (fixture pel_registry): PELs of different
+    creators decoded one after the other in ONE interpreter, each compared with the same bytes in a fresh interpreter that has
+    the same registry"""
+    from props import c03reg
+    pels, _ = c03reg.rand_registry(rng)
+    comp_ids = ["2000", "1234", "ABCD"]
+    comps = {cr: {c: "name-%s-%s" % (cr, c) for c in rng.sample(comp_ids, rng.randrange(1, 4))} for cr in rng.sample(["O", "B", "H", "T"], rng.randrange(2, 5))}
+    hist = []
+    for _ in range(rng.randrange(3, 7)):
+        creator = rng.choice([b"O", b"B", b"H", b"T", b"P"])
+        comp = int(rng.choice(comp_ids), 16)
+        secs = [(b"UD", 1, 7, comp, bytes(rng.randrange(256) for _ in range(8)))]
+        if rng.random() < 0.5:
+            secs.append((b"ED", 1, 7, int(rng.choice(comp_ids), 16), rng.choice([b"O", b"B", b"H"]) + b"\0\0\0" + b"abcd"))
+        data = c04.mini_pel(creator, secs)
+        data = data[:6] + comp.to_bytes(2, "big") + data[8:]
+        if rng.random() < 0.3:
+            data = data[:-3]          # a log that fails to decode after its headers have been shown
+        hist.append(data)
+    w = c03reg.RegistryWorker(pels, comps)
+    try:
+        got = [w.decode(d, True) for d in hist]
+    finally:
+        w.close()
+    for idx, d in enumerate(hist):
+        f = c03reg.RegistryWorker(pels, comps)
+        try:
+            ref = f.decode(d, True)
+        finally:
+            f.close()
+        run.evaluations += 1
+        run.count("registry-history")
+        if not (ref.get("kind") == got[idx].get("kind") and ref.get("text") == got[idx].get("text")):
+            run.violation("history-dependent:registry", "decode #%d of a history (component-name files for %s installed) differs from a fresh interpreter" % (idx, sorted(comps)),
+                          dict(kind="S", fn="registry-history", history=[h.hex() for h in hist], index=idx, components=comps, registry=pels,
+                               in_history=(got[idx].get("text") or got[idx].get("kind"))[:600], fresh=(ref.get("text") or ref.get("kind"))[:600]))
+            break
+    run.nontriv(tuple(hist))
+
+
 def run(run, model, proof):
     rng = run.rng
     thorough = run.tier == "thorough"
     run.rule = RULE
+    for _ in range(60 if thorough else 6):
+        registry_history(run, model, rng)
     n = 2500 if thorough else 160
     for i in range(n):
         history_case(run, model, rng, i, sample_fresh=(i % (100 if thorough else 40) == 0))
@@ -160,6 +203,10 @@ def run(run, model, proof):
 
 def replay(run, model, path):
     r = json.load(open(path))
+    if r.get("fn") == "registry-history":
+        for _ in range(20):
+            registry_history(run, model, run.rng)
+        return
     if r.get("fn") != "history":
         return globals()["run"](run, model, dict(ok=True))
     fx = [tuple(f) for f in r["fixtures"]]
